@@ -622,6 +622,9 @@ func runProg(res *hx.Result, p *Prog, idx int) {
 						}
 					}
 				}
+				if bad == "" && sd.Count != int64(len(ks)) {
+					bad = fmt.Sprintf("fresh process: Count() = %d but %d items are stored and the reference has %d", sd.Count, len(sd.Keys), len(ks))
+				}
 			}
 		}
 		if !stopCorr && !dropTxn {
@@ -700,8 +703,8 @@ func corpus() []*Prog {
 		return o
 	}
 	for _, m := range modes {
-		for _, slot := range []int{2, 4, 8} {
-			p := &Prog{Name: "grid", Opts: mkOpts(m, slot), HashMod: 2, Vals: small(64)}
+		for _, slot := range []int{2, 5, 7} { // 5 and 7 are odd REQUESTED lengths (effective 4 and 6): NewStoreInfo must round them down
+			p := &Prog{Name: "grid", Opts: mkOpts(m, slot), HashMod: 2, Vals: small(64), DumpEvery: 2}
 			p.Vals[50].Size = 0
 			p.Vals[51].Size = 1
 			p.Vals[52].Size = 20000
@@ -720,7 +723,7 @@ func corpus() []*Prog {
 	// T1 add, T2 update (actively persisted: moves the value out of the node), T3 key-only update, T4 again + a get
 	for _, m := range modes {
 		for _, kk := range []string{"k", "K"} {
-			p := &Prog{Name: "key-only-update-" + kk, Opts: mkOpts(m, 4), HashMod: 2, Vals: small(64)}
+			p := &Prog{Name: "key-only-update-" + kk, Opts: mkOpts(m, 4), HashMod: 2, Vals: small(64), DumpEvery: 2}
 			p.Vals[7].Size = 9000
 			p.Txns = []TxnIn{
 				{Ops: []Op{{K: "a", Key: 1, Val: 1}, {K: "a", Key: 2, Val: 2}, {K: "a", Key: 3, Val: 3}}, Commit: true},
@@ -730,6 +733,31 @@ func corpus() []*Prog {
 				{Ops: []Op{{K: "g", Key: 1}, {K: "g", Key: 2}, {K: "g", Key: 3}}, Commit: true},
 				{Ops: []Op{{K: kk, Key: 4}, {K: kk, Key: 1}}, Commit: false},
 			}
+			ps = append(ps, p)
+		}
+	}
+	// odd requested slot lengths with enough adds to split leaves and the root (several levels), every placement:
+	// btree/node.go's split keeps all items only for an even effective length
+	for _, m := range modes {
+		for _, sl := range []struct{ slot, items int }{{3, 16}, {9, 30}} {
+			name := fmt.Sprintf("odd-slot-%d-splits", sl.slot)
+			if sl.slot == 9 && (m.GlobalCache || (!m.InNode && !m.ActivelyP)) {
+				name = "x-" + name // extended corpus
+			}
+			p := &Prog{Name: name, Opts: mkOpts(m, sl.slot), HashMod: 2, Vals: small(64)}
+			var t1, t2 []Op
+			for i := 0; i < sl.items; i++ {
+				k := (i * 7) % sl.items // a permutation: items is coprime to 7
+				o := Op{K: "a", Key: k * 3, Val: i % 40}
+				if i < sl.items*2/3 {
+					t1 = append(t1, o)
+				} else {
+					t2 = append(t2, o)
+				}
+			}
+			t2 = append(t2, Op{K: "g", Key: 0}, Op{K: "u", Key: 3, Val: 41}, Op{K: "r", Key: 6})
+			p.Txns = []TxnIn{{Ops: t1, Commit: true}, {Ops: t2, Commit: true}}
+			p.DumpEvery = 2 // one dump, after the second transaction... and the last
 			ps = append(ps, p)
 		}
 	}
@@ -765,7 +793,7 @@ func corpus() []*Prog {
 
 func genProg(r *hx.Rng, tier string, i int) *Prog {
 	m := hx.Pick(r, modes)
-	slot := hx.Pick(r, []int{2, 2, 4, 4, 8, 16, 64})
+	slot := hx.Pick(r, []int{2, 2, 3, 4, 5, 7, 8, 9, 16, 64})
 	p := &Prog{Name: fmt.Sprint("rand", i), Opts: mkOpts(m, slot), HashMod: hx.Pick(r, []int{1, 2, 5}), DumpEvery: hx.Pick(r, []int{1, 2, 3}), Reposition: r.Chance(70)}
 	nv := 48
 	p.Vals = make([]ValSpec, nv)
@@ -849,6 +877,22 @@ func runC19(cfg *hx.RunCfg) (*hx.Result, error) {
 		var rp struct {
 			Input Prog `json:"input"`
 		}
+		var sn struct {
+			Input struct {
+				Kind      string `json:"kind"`
+				Requested int    `json:"requested"`
+			} `json:"input"`
+		}
+		if json.Unmarshal(raw, &sn) == nil && sn.Input.Kind == "slotnorm" {
+			req := sn.Input.Requested
+			eff := sop.NewStoreInfo(sop.StoreOptions{Name: "x", SlotLength: req}).SlotLength
+			res.Seen(fmt.Sprint("slotnorm:", req), true)
+			if eff%2 != 0 || eff < 2 || eff > 20000 {
+				res.Fail("slot-length-normalisation", fmt.Sprintf("NewStoreInfo(SlotLength: %d).SlotLength = %d", req, eff), sn.Input)
+			}
+			res.AddCase(fmt.Sprintf("SlotNorm %s %s", hx.CoqZ(int64(req)), hx.CoqZ(int64(eff))), sn.Input)
+			return res, nil
+		}
 		if err := json.Unmarshal(raw, &rp); err != nil {
 			return nil, err
 		}
@@ -862,14 +906,35 @@ func runC19(cfg *hx.RunCfg) (*hx.Result, error) {
 			n = 400
 		}
 	}
+	for _, req := range []int{-5, 0, 1, 2, 3, 4, 5, 7, 9, 99, 100, 1999, 2000, 2001, 19999, 20000, 20001, 20003, 50001} {
+		eff := sop.NewStoreInfo(sop.StoreOptions{Name: "x", SlotLength: req}).SlotLength
+		res.Seen(fmt.Sprint("slotnorm:", req), req > 0)
+		res.Count("slotnorm")
+		in := map[string]any{"kind": "slotnorm", "requested": req}
+		if eff%2 != 0 || eff < 2 || eff > 20000 {
+			res.Fail("slot-length-normalisation", fmt.Sprintf("NewStoreInfo(SlotLength: %d).SlotLength = %d: not an even length in [2, 20000] (the node split loses an item for an odd length)", req, eff), in)
+		}
+		res.AddCase(fmt.Sprintf("SlotNorm %s %s", hx.CoqZ(int64(req)), hx.CoqZ(int64(eff))), in)
+	}
+	// Core corpus (always run): one program per known finding and the split-forcing odd-slot programs. Extended corpus
+	// (grid, key-only updates): always in the thorough tier; in the quick tier it shares the wall-clock budget with the random
+	// programs, starting at an offset that depends on the seed so that successive seeds cover all of it.
+	// The budget exists because the machine may be heavily loaded (a fresh-process dump then costs seconds); programs are a
+	// deterministic function of (seed, index), so a run that hits the budget covers a prefix of the same sequence.
 	idx := 0
+	var core, ext []*Prog
 	for _, p := range corpus() {
+		if strings.HasPrefix(p.Name, "finding-") || strings.HasPrefix(p.Name, "odd-slot-") {
+			core = append(core, p)
+		} else {
+			ext = append(ext, p)
+		}
+	}
+	for _, p := range core {
 		runProg(res, p, idx)
 		idx++
 	}
-	// wall-clock budget for the random part (the machine may be heavily loaded): programs are a deterministic function of
-	// (seed, index), a run that hits the budget just covers a prefix of the same sequence; the count is in the evidence
-	budget := 50 * time.Second
+	budget := 55 * time.Second
 	if cfg.Tier == "thorough" {
 		budget = 11 * time.Minute
 	}
@@ -878,12 +943,28 @@ func runC19(cfg *hx.RunCfg) (*hx.Result, error) {
 	}
 	start := time.Now()
 	r := hx.NewRng(cfg.Seed)
-	ran := 0
+	ran, ranExt := 0, 0
+	if cfg.Tier == "thorough" {
+		for _, p := range ext {
+			runProg(res, p, idx)
+			idx++
+			ranExt++
+		}
+		start = time.Now()
+	}
+	off := int(cfg.Seed*7) % len(ext)
 	for i := 0; i < n && time.Since(start) < budget; i++ {
+		if cfg.Tier != "thorough" && ranExt < len(ext) && i%2 == 0 {
+			runProg(res, ext[(off+ranExt)%len(ext)], idx)
+			idx++
+			ranExt++
+			continue
+		}
 		runProg(res, genProg(r, cfg.Tier, i), idx)
 		idx++
 		ran++
 	}
+	res.Notes = append(res.Notes, fmt.Sprintf("core corpus %d, extended corpus %d of %d", len(core), ranExt, len(ext)))
 	res.Notes = append(res.Notes, fmt.Sprintf("random programs run: %d of at most %d (budget %v)", ran, n, budget))
 	return res, nil
 }
